@@ -8,6 +8,7 @@ package vrace
 import (
 	"fmt"
 	"strings"
+	"unsafe"
 
 	"go.lstv.dev/util/internal/vsim/sched"
 )
@@ -112,8 +113,90 @@ func failK(s *sched.Sim, what string, me *sched.Task, write bool, other int, oth
 	if write {
 		verb = "wrote"
 	}
-	s.Fail("I5-shared-variable-race", "race:"+strings.ReplaceAll(what, " ", ","),
+	s.Fail("I5-shared-variable-race", "race:"+strings.ReplaceAll(strings.ReplaceAll(what, " ", ","), "(", ""),
 		fmt.Sprintf("t%d %s %s with no happens-before edge from the %s by t%d: a data race in the real program", me.ID, verb, what, otherWhat, other))
+}
+
+// ---- memory reached through pointers (receivers and parameters of pointer type): the hook
+// passes the address of the field. Sound only because (a) the harness switches the garbage
+// collector off for the duration of a run, so no heap address is reused within it, and (b)
+// when a task ends, every address that only this task ever touched is forgotten, so a later
+// goroutine that is given the same stack memory starts from a clean slate.
+
+type addrState struct {
+	state
+	sole int // task id + 1 of the only task that touched it so far, -1 once shared
+}
+
+var (
+	addrs     = map[uintptr]*addrState{}
+	addrGen   uint64
+	byCreator = map[int][]uintptr{}
+)
+
+func init() {
+	sched.OnTaskExit = func(s *sched.Sim, id int) {
+		if addrGen != s.Gen {
+			return
+		}
+		for _, a := range byCreator[id] {
+			if st := addrs[a]; st != nil && st.sole == id+1 {
+				delete(addrs, a)
+			}
+		}
+		delete(byCreator, id)
+	}
+}
+
+// RA is a plain read of the memory at p; WA a plain write.
+func RA(p unsafe.Pointer) { accessAddr(uintptr(p), false) }
+
+// WA is a plain write of the memory at p.
+func WA(p unsafe.Pointer) { accessAddr(uintptr(p), true) }
+
+func accessAddr(a uintptr, write bool) {
+	s := sched.Cur
+	if s == nil || s.Aborted() {
+		return
+	}
+	Accesses++
+	s.Yield(sched.KAccess, 0)
+	if s.Aborted() || !Enabled {
+		return
+	}
+	if addrGen != s.Gen {
+		addrGen = s.Gen
+		addrs = map[uintptr]*addrState{}
+		byCreator = map[int][]uintptr{}
+	}
+	me := s.CurTask()
+	v := addrs[a]
+	if v == nil {
+		v = &addrState{state: state{gen: s.Gen, reads: make([]uint32, s.NumTasks())}, sole: me.ID + 1}
+		addrs[a] = v
+		byCreator[me.ID] = append(byCreator[me.ID], a)
+	} else if v.sole != me.ID+1 {
+		v.sole = -1
+	}
+	what := "memory reached through a pointer (a struct field)"
+	if v.hasW && v.wTask != me.ID && me.VC[v.wTask] < v.wClock {
+		failK(s, what, me, write, v.wTask, "previous write")
+		return
+	}
+	if !write {
+		v.reads[me.ID] = me.VC[me.ID]
+		return
+	}
+	for u, c := range v.reads {
+		if u != me.ID && c > me.VC[u] {
+			failK(s, what, me, write, u, "previous read")
+			return
+		}
+	}
+	v.hasW, v.wTask, v.wClock = true, me.ID, me.VC[me.ID]
+	for i := range v.reads {
+		v.reads[i] = 0
+	}
 }
 
 func get(s *sched.Sim, id int) *state {
